@@ -12,6 +12,15 @@ CLAIMED = {
         'Trusts annotations as the statement of which fields hold expressions; exemption table for attached '
         'pragma/comment metadata and literal-only fields is in sa/rules/c15.py.',
         'DESIGN.md section 3, C15'),
+    'C26': (
+        'static visitor dispatch totality + intra-procedural may-flow (taint) from node fields to the def/use sinks; '
+        'finite-domain evaluation of the intent filters',
+        'Decides structural necessary conditions of the over-approximation: every IR node class (47) is handled by a '
+        'dataflow handler that funnels into visit_Node; every expression/body field flows into uses/defines; the intent '
+        'filters cover {none,in,out,inout}; sequencing (uses before defines) and union merges. Does NOT decide aliasing, '
+        'array sections or interprocedural effects.',
+        'May-flow is flow-insensitive inside one handler; exemption table (fields naming entities) in sa/rules/c26.py.',
+        'DESIGN.md section 3, C26'),
 }
 
 NOT_APPLICABLE = {
